@@ -9,6 +9,8 @@ Parsed from the source text with `ast` (numeric literals are not observable as a
     all-failed result of `fold_enhanced`,
   * `confidence = max(<floor>, <base> - (len(..) * <step>))` of `_fold_lenient_enhanced` and `_fold_repair_enhanced`.
 Decimal literals are emitted as exact (numerator, denominator) pairs of the literal's shortest repr.
+Evaluated on the real wrapper classes (`wrapper_facts`): what `ChaperoneLoop` does to the Chaperone it is handed, what
+`BioAgent` constructs as its organelle.
 Every fact is an `Option`; a shape that is not recognised yields `none`, which makes `c11_extracted_tables_agree`
 fail to elaborate (fail closed).
 """
@@ -99,6 +101,78 @@ def _guard(fn):
         return None
 
 
+class _Probe:
+    """stands in for a Chaperone handed to one of the library's wrappers: every METHOD the wrapper calls on it is logged
+    (reads of attributes are not: a wrapper may look), everything is forwarded to a real instance"""
+
+    def __init__(self, inner):
+        object.__setattr__(self, "_inner", inner)
+        object.__setattr__(self, "_calls", [])
+
+    def __getattr__(self, name):
+        v = getattr(self._inner, name)
+        if callable(v) and not isinstance(v, type):
+            def logged(*a, _v=v, _n=name, **kw):
+                self._calls.append(_n)
+                return _v(*a, **kw)
+            return logged
+        return v
+
+    def __setattr__(self, name, value):
+        self._calls.append("set:" + name)
+        setattr(self._inner, name, value)
+
+
+def _config_of(ch):
+    """what a fold on this instance depends on besides the counters (objects by identity where they are callables)"""
+    return (list(ch.strategies), sorted((repr(k), id(v)) for k, v in ch.co_chaperones.items()), id(ch.on_misfold),
+            ch.on_misfold is None, list(ch.JSON_EXTRACTION_PATTERNS), list(ch.JSON_REPAIRS), ch.max_retries)
+
+
+def wrapper_facts(mod):
+    """EVALUATED on the real classes: what `ChaperoneLoop` does to the Chaperone it is handed (construction; one healing
+    run over a misfold followed by clean JSON), and what `BioAgent` constructs as its organelle.  None = not observable."""
+    facts = {"ctor_calls": None, "ctor_leaves": None, "heal_calls": None, "heal_leaves": None, "agent_default": None}
+    try:
+        from pydantic import BaseModel
+        import operon_ai.healing.chaperone_loop as loop_mod
+
+        class ProbeSchema(BaseModel):
+            a: int
+
+        def keep(text):
+            return text
+        inner = mod.Chaperone(strategies=[mod.FoldingStrategy.REPAIR, mod.FoldingStrategy.STRICT], silent=True)
+        inner.register_co_chaperone(dict, keep)          # a co-chaperone for another class: must stay, nothing may be added
+        before = _config_of(inner)
+        probe = _Probe(inner)
+        outs = iter(["nope", '{"a": 1}'])
+        loop = loop_mod.ChaperoneLoop(generator=lambda prompt, error_context=None: next(outs), chaperone=probe,
+                                      schema=ProbeSchema, max_retries=3, silent=True)
+        facts["ctor_calls"] = list(probe._calls)
+        facts["ctor_leaves"] = _config_of(inner) == before
+        del probe._calls[:]
+        res = loop.heal("prompt")
+        if res.valid and len(res.attempts) == 2:
+            facts["heal_calls"] = list(probe._calls)
+            facts["heal_leaves"] = _config_of(inner) == before
+    except Exception:
+        pass
+    try:
+        import operon_ai.core.agent as agent_mod
+        import operon_ai.state.metabolism as atp_mod
+        ch = agent_mod.BioAgent("probe", "Worker", atp_mod.ATP_Store(budget=1, silent=True)).chaperone
+        ref = mod.Chaperone()
+        facts["agent_default"] = (type(ch) is mod.Chaperone and list(ch.strategies) == list(ref.strategies)
+                                  and ch.co_chaperones == {} and ch.on_misfold is None
+                                  and ch.JSON_EXTRACTION_PATTERNS is mod.Chaperone.JSON_EXTRACTION_PATTERNS
+                                  and ch.JSON_REPAIRS is mod.Chaperone.JSON_REPAIRS
+                                  and ch.strategies is not ref.strategies)
+    except Exception:
+        pass
+    return facts
+
+
 def generate(repo: Path, mod) -> str:
     src_path = repo / "operon_ai" / "organelles" / "chaperone.py"
     tree = _guard(lambda: ast.parse(src_path.read_text()))
@@ -175,6 +249,24 @@ def generate(repo: Path, mod) -> str:
     out.append("/-- (base, step, floor) of `max(floor, base - len(..) * step)` -/")
     out.append(f"def lenientFormula : Option ((Nat × Nat) × (Nat × Nat) × (Nat × Nat)) := {triple(lenient)}")
     out.append(f"def repairFormula : Option ((Nat × Nat) × (Nat × Nat) × (Nat × Nat)) := {triple(repair)}")
+    wf = _guard(lambda: wrapper_facts(mod)) or {}
+
+    def names(l):
+        if l is None or not all(isinstance(x, str) and x.replace(":", "_").isidentifier() for x in l):
+            return "none"
+        return "some [" + ", ".join(f'"{x}"' for x in l) + "]"
+
+    def boolean(b):
+        return "none" if b is None else ("some true" if b else "some false")
+    out.append("/-- the library's own wrappers (EVALUATED): methods of the Chaperone that `ChaperoneLoop(…, chaperone=c, …)` calls")
+    out.append("    while it is constructed; whether c's configuration (strategies, co-chaperones, on_misfold, tables) is the same")
+    out.append("    afterwards; the methods one `heal` over [misfold, clean JSON] calls; the same for the configuration; whether")
+    out.append("    `BioAgent(…).chaperone` is a default-configured `Chaperone` with a strategy list of its own -/")
+    out.append(f"def loopCtorCalls : Option (List String) := {names(wf.get('ctor_calls'))}")
+    out.append(f"def loopCtorLeavesConfig : Option Bool := {boolean(wf.get('ctor_leaves'))}")
+    out.append(f"def healCalls : Option (List String) := {names(wf.get('heal_calls'))}")
+    out.append(f"def healLeavesConfig : Option Bool := {boolean(wf.get('heal_leaves'))}")
+    out.append(f"def agentChaperoneIsDefault : Option Bool := {boolean(wf.get('agent_default'))}")
     out.append("")
     out.append("end Operon.Gen.ChaperoneTables")
     return "\n".join(out) + "\n"
